@@ -36,8 +36,11 @@ CHECKS = {
     "C12": {"level": "exploration", "technique": "deterministic simulation: real keypress thread under a seeded baton scheduler (PCT priorities/change points at traced source lines), virtual clock, scripted stdin faults; prefix/refinement oracle against the uninterrupted run",
             "text": "The real keyboard thread runs on a real OS thread but only while holding the scheduler's baton; every interleaving decision, stdin event (status/help/junk/quit/EOF/closed/lost/EIO/undecodable/silent), sleep and clock reading is the simulator's. Oracle: without an effective quit the stream equals the uninterrupted one; with one it is a prefix cut at a legal point no later than the current pre-terminal / next Markov guess, with a save file from which the rest resumes exactly.",
             "note": _TB + "; pre-emption granularity = source lines of the session code and seam calls; tty/SIGINT not modelled"},
+    "C09": {"level": "exploration", "technique": "deterministic simulation of whole process images (main() with argv) with recording stdout/stderr seams, injected save-file I/O errors, scheduled keyboard thread, seeded RNG seam; validated against real subprocesses",
+            "text": "Whole pcfg_guesser.main() process images on the scratch disk; stdout text must equal the guesses recorded at the print_guess seam, byte for byte, and --limit N output must be the first min(N,total) lines for N at/around group and Markov-level boundaries; faults: failing .sav writes, status/help requests from the real scheduled thread, quit + --load --limit (thorough); honeyword modes with the simulator's RNG.",
+            "note": _TB + "; in-process capture is cross-checked against 6 real `python pcfg_guesser.py` processes per invocation"},
 }
 
 _PENDING = "check not built yet in this round (planned: DESIGN.md §6); not claimed until its evidence exists"
 NOT_APPLICABLE = {p: _PENDING for p in
-                  ["C03", "C05", "C06", "C07", "C09", "C10", "C11", "C13", "C14", "C16", "C17", "C18", "C19", "C20"]}
+                  ["C03", "C05", "C06", "C07", "C10", "C11", "C13", "C14", "C16", "C17", "C18", "C19", "C20"]}
